@@ -61,6 +61,7 @@ type Client struct {
 	invHandlers       map[wamp.ID]InvocationHandler
 	invHandlersQueues map[clientInvocation]chan *wamp.Invocation
 	invHandlersCtxs   map[clientInvocation]context.Context
+	invFinalQueued    map[clientInvocation]struct{}
 	nameProcID        map[string]wamp.ID
 	invHandlerKill    map[wamp.ID]context.CancelFunc
 	progGate          map[wamp.ID]struct{}
@@ -286,6 +287,7 @@ func NewClient(p wamp.Peer, cfg Config) (*Client, error) {
 		invHandlers:       map[wamp.ID]InvocationHandler{},
 		invHandlersQueues: map[clientInvocation]chan *wamp.Invocation{},
 		invHandlersCtxs:   map[clientInvocation]context.Context{},
+		invFinalQueued:    map[clientInvocation]struct{}{},
 		nameProcID:        map[string]wamp.ID{},
 		invHandlerKill:    map[wamp.ID]context.CancelFunc{},
 		progGate:          map[wamp.ID]struct{}{},
@@ -1652,6 +1654,7 @@ func (c *Client) cleanupInvHandlersQueue(cliInvocation clientInvocation) {
 	}
 	delete(c.invHandlersQueues, cliInvocation)
 	delete(c.invHandlersCtxs, cliInvocation)
+	delete(c.invFinalQueued, cliInvocation)
 
 	c.sess.Unlock()
 	// Drain chan in case anyone is blocked.
@@ -1786,10 +1789,30 @@ func (c *Client) runHandleInvocation(msg *wamp.Invocation) {
 		}
 	} else {
 		c.sess.UpdateLastRecvIDLocked(reqID)
+		if _, final := c.invFinalQueued[cliInvocation]; final {
+			// The final INVOCATION for this request was already received,
+			// so this cannot be another chunk of it.
+			c.sess.Unlock()
+			c.log.Println("Ignoring Invocation for already complete reqID=", reqID)
+			return
+		}
+	}
+	if inProgress, _ := msg.Details[wamp.OptProgress].(bool); !inProgress {
+		c.invFinalQueued[cliInvocation] = struct{}{}
 	}
 	c.sess.Unlock()
 
-	handlerQueue <- msg
+	if !queueExists {
+		handlerQueue <- msg // does not block, the queue is new
+	} else {
+		// The queue is full while the handler is busy with earlier chunks.
+		// Do not wait for it when the client is being closed.
+		select {
+		case handlerQueue <- msg:
+		case <-c.sess.RecvDone():
+			return
+		}
+	}
 
 	if !queueExists {
 		// Start a goroutine to run the user-defined invocation handler.
